@@ -40,6 +40,7 @@
 #include <string.h>
 #include <stdint.h>
 #include <unistd.h>
+#include <time.h>
 
 static int pv_Testsome(int incount, MPI_Request reqs[], int *outcount, int idx[], MPI_Status st[]);
 static int pv_Get_count(const MPI_Status *st, MPI_Datatype dt, int *count);
@@ -275,11 +276,15 @@ static int pv_Irecv(void *buf, int count, MPI_Datatype dt, int src, int tag, MPI
     return PMPI_Irecv(buf, count, dt, src, tag, comm, req);
 }
 
+static double last_event;
+static double now(void) { struct timespec t; clock_gettime(CLOCK_MONOTONIC, &t); return t.tv_sec + 1e-9 * t.tv_nsec; }
+
 static void do_progress(void)
 {
     in_progress = 1;
-    ce->progress(ce);
+    int n = ce->progress(ce);
     in_progress = 0;
+    if( n > 0 ) last_event = now();
     close_iter();
     if( empty_pending ) {
         if( quick_sig() != empty_sig ) fprintf(tr, "test => -\nfinish => %s\n", digest());
@@ -559,12 +564,22 @@ int main(int argc, char **argv)
                 }
             }
             long spins = 0;
+            double stuck_after = getenv("C14_STUCK_S") ? atof(getenv("C14_STUCK_S")) : 60.0;
+            last_event = now();
             while( got_am < exp_am || got_ctl < exp_ctl || got_xl < exp_xl || got_xr < exp_xr || deferred_head ||
                    mpi_funnelled_last_active_req != mpi_funnelled_static_req_idx ||
                    !parsec_list_nolock_is_empty(&mpi_funnelled_dynamic_sendreq_fifo) || !parsec_list_nolock_is_empty(&mpi_funnelled_dynamic_recvreq_fifo) ) {
                 do_progress(); run_deferred();
-                if( ++spins > 200000000L ) break;
-                if( (spins & 1023) == 0 ) usleep(50);
+                ++spins;
+                if( (spins & 63) == 0 ) {
+                    usleep(50);
+                    if( now() - last_event > stuck_after ) {
+                        /* nothing completed for a long time although work addressed to this rank is outstanding */
+                        fprintf(tr, "E stuck %d am %ld/%ld ctl %ld/%ld xl %ld/%ld xr %ld/%ld | %s\n", me, got_am, exp_am, got_ctl, exp_ctl, got_xl, exp_xl, got_xr, exp_xr, digest());
+                        fflush(tr);
+                        MPI_Abort(MPI_COMM_WORLD, 7);
+                    }
+                }
             }
             fprintf(tr, "#phase am %ld/%ld ctl %ld/%ld xl %ld/%ld xr %ld/%ld spins %ld\n", got_am, exp_am, got_ctl, exp_ctl, got_xl, exp_xl, got_xr, exp_xr, spins);
             fflush(tr);
